@@ -418,6 +418,8 @@ nfa, with no epsilon transition
 
         """
         from pyformlang.regular_expression import Regex
+        if len(self._start_state) > 1:
+            return self._get_single_start_state_copy().to_regex()
         enfas = [self.copy() for _ in self._final_states]
         final_states = list(self._final_states)
         for i in range(len(self._final_states)):
@@ -434,6 +436,21 @@ nfa, with no epsilon transition
                 regex_l.append(regex_sub)
         res = "+".join(regex_l)
         return Regex(res)
+
+    def _get_single_start_state_copy(self) -> "EpsilonNFA":
+        """ Copies the automaton with a unique new start state, linked by
+        epsilon transitions to the original start states """
+        enfa = EpsilonNFA.copy(self)
+        counter = 0
+        new_start = State("Start" + str(counter))
+        while new_start in self._states:
+            counter += 1
+            new_start = State("Start" + str(counter))
+        for start in self._start_state:
+            enfa.remove_start_state(start)
+            enfa.add_transition(new_start, Epsilon(), start)
+        enfa.add_start_state(new_start)
+        return enfa
 
     def _get_regex_simple(self) -> str:
         """ Get the regex of an automaton when it only composed of a start and
